@@ -52,30 +52,39 @@ class Type1TagCommandError(TagCommandError):
     }
 
 
-def read_tlv(memory, offset, skip_bytes):
+def read_tlv(memory, offset, skip_bytes, limit=0x100000):
     # Unpack a TLV from tag memory and return tag type, tag length and
     # tag value. For tag type 0 there is no length field, this is
     # returned as length -1. The tlv length field can be one or three
     # bytes, if the first byte is 255 then the next two byte carry the
-    # length (big endian).
+    # length (big endian). If the tag can not be read or the TLV does
+    # not end before the memory offset *limit*, all values are None.
     try:
         tlv_t, offset = (memory[offset], offset+1)
+
+        if tlv_t in (0x00, 0xFE):
+            return (tlv_t, -1, None)
+
+        if offset >= limit:
+            return (None, None, None)
+
+        tlv_l, offset = (memory[offset], offset+1)
+
+        if tlv_l == 0xFF:
+            if offset + 2 > limit:
+                return (None, None, None)
+            tlv_l, offset = (unpack(">H", memory[offset:offset+2])[0],
+                             offset+2)
+
+        tlv_v = bytearray(tlv_l)
+        for i in range(tlv_l):
+            while (offset + i) in skip_bytes:
+                offset += 1
+            if offset + i >= limit:
+                return (None, None, None)
+            tlv_v[i] = memory[offset+i]
     except Type1TagCommandError:
         return (None, None, None)
-
-    if tlv_t in (0x00, 0xFE):
-        return (tlv_t, -1, None)
-
-    tlv_l, offset = (memory[offset], offset+1)
-
-    if tlv_l == 0xFF:
-        tlv_l, offset = (unpack(">H", memory[offset:offset+2])[0], offset+2)
-
-    tlv_v = bytearray(tlv_l)
-    for i in range(tlv_l):
-        while (offset + i) in skip_bytes:
-            offset += 1
-        tlv_v[i] = memory[offset+i]
 
     return (tlv_t, tlv_l, tlv_v)
 
@@ -177,17 +186,24 @@ class Type1Tag(Tag):
                     offset += 1
                     continue
 
-                tlv_t, tlv_l, tlv_v = read_tlv(tag_memory, offset, skip_bytes)
+                tlv_t, tlv_l, tlv_v = read_tlv(tag_memory, offset, skip_bytes,
+                                               tag_memory_size)
                 log.debug("tlv type {0} at address {1}".format(tlv_t, offset))
 
                 if tlv_t == 0x00:
                     pass
                 elif tlv_t == 0x01:
-                    lock_bytes = get_lock_byte_range(tlv_v)
-                    skip_bytes.update(range(*lock_bytes.indices(0x800)))
+                    if tlv_l == 3:
+                        lock_bytes = get_lock_byte_range(tlv_v)
+                        skip_bytes.update(range(*lock_bytes.indices(0x800)))
+                    else:
+                        log.debug("lock tlv has wrong length")
                 elif tlv_t == 0x02:
-                    rsvd_bytes = get_rsvd_byte_range(tlv_v)
-                    skip_bytes.update(range(*rsvd_bytes.indices(0x800)))
+                    if tlv_l == 3:
+                        rsvd_bytes = get_rsvd_byte_range(tlv_v)
+                        skip_bytes.update(range(*rsvd_bytes.indices(0x800)))
+                    else:
+                        log.debug("memory tlv has wrong length")
                 elif tlv_t == 0x03:
                     ndef = tlv_v
                     break
